@@ -18,6 +18,10 @@ def na(pid, reason):
 
 exec(open(os.path.join(HERE, "tools", "claims.py")).read())
 
+for pid in PLANNED:
+    if pid not in CLAIMED and pid not in NA:
+        NA[pid] = "check not built yet in this round (planned, see DESIGN.md §5)"
+
 checks = []
 for pid in sorted(CLAIMED):
     text, note, design = CLAIMED[pid]
